@@ -137,8 +137,8 @@ def accepts (pol : Nat) (localBits remoteBits : Option Nat) : Bool :=
   match findRow pol with
   | none => false
   | some row =>
-    row.accept localBits.isSome (sizeOfBits ((localBits.getD 0 : Nat) : Int))
-      remoteBits.isSome (sizeOfBits ((remoteBits.getD 0 : Nat) : Int))
+    row.accept localBits.isSome ((localBits.getD 0 : Nat) : Int)
+      remoteBits.isSome ((remoteBits.getD 0 : Nat) : Int)
 
 def certLenClient (bits : Nat) : Nat := ((Gen.testKeys.find? (·.1 = bits)).map (·.2.1)).getD 0
 def certLenServer (bits : Nat) : Nat := ((Gen.testKeys.find? (·.1 = bits)).map (·.2.2)).getD 0
